@@ -43,6 +43,7 @@ class Contract:
         self.results = None     # sort key of result
         self.locals = {}
         self.reads_only = False
+        self.unfold = None
         for s in node.body:
             if isinstance(s, ast.Expr) and isinstance(s.value, ast.Constant):
                 continue
@@ -92,6 +93,8 @@ class Contract:
                 self.sorts[c.args[0].value] = c.args[1].value
             elif k == 'result_sort':
                 self.results = c.args[0].value
+            elif k == 'unfold':
+                self.unfold = c.args[0].value
             elif k == 'ghost':
                 self.ghost.append(c)
             else:
